@@ -67,6 +67,11 @@ let case_element () =
     let rs = s_run cd elt_empty ops in
     "S n0" ^ String.concat "" (List.map2 (fun o r -> "|" ^ show_res o r) ops rs)
 
+let inject_bytes = ref []
+let read_inject () =
+  let n = nexti () in
+  inject_bytes := List.init n (fun _ -> nexti ())
+
 let case_bits () =
   let n = nexti () in
   let ops = List.init n (fun _ ->
@@ -77,7 +82,11 @@ let case_bits () =
     | "e" -> BEnd (z_of_int (nexti ()))
     | "or" -> BStartRead | "ow" -> BStartWrite | "x" -> BStartRead
     | t -> failwith ("bitop " ^ t)) in
-  let rs = b_run bitelt_new ops in
+  let init = match !inject_bytes with
+    | [] -> bitelt_new
+    | bs -> { b_bits = List.concat (List.map (fun b -> List.init 8 (fun i -> (b lsr (7 - i)) land 1 = 1)) bs);
+              b_pos = Z0; b_writing = false } in
+  let rs = b_run init ops in
   "S n0" ^ String.concat "" (List.map2 (fun o r ->
     match r, o with
     | RNoDomain, _ -> "|?"
@@ -109,7 +118,9 @@ let case_verify () =
     | 2 -> let sz = nt_size p.(0) in
            let cfg = { nb_size = z_of_int sz; nb_off = z_of_int p.(3); nb_len = z_of_int p.(4); nb_sign = (p.(1) = 1); nb_fill = (p.(2) = 1) } in
            optstr (nbit_decode cfg raw (z_of_int (n / sz))), "h" ^ hex (nbit_encode cfg data)
-    | 3 -> optstr (skp_decode (z_of_int p.(0)) raw zn), "h" ^ hex (skp_encode (z_of_int p.(0)) data)
+    | 3 -> optstr (skp_decode (z_of_int p.(0)) raw zn),
+           (* the list-based splay model costs ~1 ms per symbol: on long elements only the decoder (format check) runs *)
+           (if n > 6000 then "na" else "h" ^ hex (skp_encode (z_of_int p.(0)) data))
     | _ -> "na", "na" in
   "M dec=" ^ dec ^ " enc=" ^ enc ^ " hdr=" ^ hdr
 
@@ -134,7 +145,9 @@ let case_hdecode () =
 (* bit cases on the model: sequential write phase, flush, read phases (seeks only while reading) *)
 let case_bits_model () =
   let n = nexti () in
-  let w = ref (Some bitw_init) and bytes = ref [] and rd = ref None and out = Buffer.create 256 in
+  let injected = !inject_bytes <> [] in
+  let w = ref (if injected then None else Some bitw_init)
+  and bytes = ref (List.map z_of_int !inject_bytes) and rd = ref None and bb = ref None and out = Buffer.create 256 in
   let supported = ref true in
   Buffer.add_string out "M n0";
   for _ = 1 to n do
@@ -146,19 +159,23 @@ let case_bits_model () =
                (match !w with Some s when !rd = None -> w := Some (bw_write s (z_of_int c) (z_of_int v)); "n" ^ string_of_int c
                             | _ -> supported := false; "?")
       | "e" -> ignore (nexti ());
-               (match !w with Some s -> bytes := bw_flush s; w := None | None -> ()); rd := None; "n0"
-      | "or" -> rd := Some (bitr_init !bytes); "n0"
+               (match !w with Some s -> bytes := bw_flush s; w := None | None -> ()); rd := None; bb := None; "n0"
+      | "or" -> (* injected elements run on the block-buffer model (CompBitbufModel), written ones on the byte-stream model *)
+               if injected then bb := Some (bb_start !bytes) else rd := Some (bitr_init !bytes); "n0"
       | "r" -> let c = nexti () in
-               (match !rd with
-                | Some s -> (match br_read s (z_of_int c) with
+               (match !bb, !rd with
+                | Some s, _ -> let (s', v) = bb_readbits !bytes s (z_of_int c) in bb := Some s'; "v" ^ string_of_int (int_of_z v)
+                | None, Some s -> (match br_read s (z_of_int c) with
                              | Some (s', v) -> rd := Some s'; "v" ^ string_of_int (int_of_z v)
                              | None -> supported := false; "?")
-                | None -> supported := false; "?")
+                | None, None -> supported := false; "?")
       | "s" -> let a = nexti () in let b = nexti () in
-               (match !rd with
-                | Some _ -> (match br_seek !bytes (z_of_int a) (z_of_int b) with
+               (match !bb, !rd with
+                | Some s, _ -> (match bb_seek !bytes s (z_of_int a) (z_of_int b) with
+                                | Some s' -> bb := Some s'; "n0" | None -> supported := false; "?")
+                | None, Some _ -> (match br_seek !bytes (z_of_int a) (z_of_int b) with
                              | Some s' -> rd := Some s'; "n0" | None -> supported := false; "?")
-                | None -> supported := false; "?")
+                | None, None -> supported := false; "?")
       | "x" -> "x," ^ hex !bytes
       | _ -> supported := false; "?" in
     Buffer.add_string out ("|" ^ tok)
@@ -175,7 +192,11 @@ let () =
       if have () then begin
         let out = (try (match next () with
           | "E" -> case_element ()
-          | "B" -> let save = !ti in let a = case_bits () in ti := save; a ^ "\n" ^ case_bits_model ()
+          | "B" -> inject_bytes := [];
+                   let save = !ti in let a = case_bits () in ti := save; a ^ "\n" ^ case_bits_model ()
+          | "BI" -> read_inject ();
+                   let save = !ti in let a = case_bits () in ti := save;
+                   let m = a ^ "\n" ^ case_bits_model () in inject_bytes := []; m
           | "V" -> case_verify ()
           | "H" -> case_header ()
           | "D" -> case_hdecode ()
